@@ -170,7 +170,7 @@ def run(ctx):
                 return
 
     # random histories
-    for i in range(6000 if thorough else 500):
+    for i in range(6000 if thorough else 500 * ctx.get('scale', 1)):
         L = rng.randrange(2, 6)
         history = []
         base = rng.choice(pool_schemas)
